@@ -41,7 +41,7 @@ func (f *frame) execInstr(in ssa.Instruction) {
 		switch xv := f.val(x.X).(type) {
 		case SliceV:
 			f.safety("index", T(SBool, "(and (<= 0 %s) (< %s %s))", idx.S, idx.S, xv.L.S), x.Pos())
-			f.env[x] = v.ctx.Define("elem", T(SRef, "(elem %s (+ %s %s))", xv.B.S, xv.O.S, idx.S))
+			f.env[x] = v.ctx.Define("elem", T(SRef, "(at %s %s %s)", xv.B.S, xv.O.S, idx.S))
 		case Term: // pointer to array
 			at := deref(x.X.Type()).Underlying().(*types.Array)
 			f.safety("nil", Not(Eq(xv, TNull)), x.Pos())
@@ -388,7 +388,7 @@ func (f *frame) execSlice(x *ssa.Slice) {
 
 // elemRef is the address of element i of a slice.
 func elemRef(s SliceV, i Term) Term {
-	return T(SRef, "(elem %s (+ %s %s))", s.B.S, s.O.S, i.S)
+	return T(SRef, "(at %s %s %s)", s.B.S, s.O.S, i.S)
 }
 
 // cellArraysOf lists the (array name, sort) pairs that hold a value of type t
@@ -473,10 +473,10 @@ func (f *frame) appendSlice(s SliceV, add SliceV, single Val, pos token.Pos) Sli
 		//   else a[r]
 		// We state it element-wise (by index) plus a frame for everything else.
 		resElem := func(i string) string {
-			return pathRef(fmt.Sprintf("(elem %s (+ %s %s))", res.B.S, res.O.S, i), ar.path)
+			return pathRef(fmt.Sprintf("(at %s %s %s)", res.B.S, res.O.S, i), ar.path)
 		}
 		srcElem := func(i string) string {
-			return pathRef(fmt.Sprintf("(elem %s (+ %s %s))", s.B.S, s.O.S, i), ar.path)
+			return pathRef(fmt.Sprintf("(at %s %s %s)", s.B.S, s.O.S, i), ar.path)
 		}
 		// old part
 		v.ctx.AssertRaw(fmt.Sprintf("(assert (forall ((i Int)) (! (=> (and (<= 0 i) (< i %s)) (= (select %s %s) (select %s %s))) :pattern ((select %s %s)))))",
@@ -488,7 +488,7 @@ func (f *frame) appendSlice(s SliceV, add SliceV, single Val, pos token.Pos) Sli
 			v.ctx.AssertRaw(fmt.Sprintf("(assert (= (select %s %s) %s))", a2.S, resElem(s.L.S), v.coerce(leaf, vs).S))
 		} else {
 			addElem := func(j string) string {
-				return pathRef(fmt.Sprintf("(elem %s (+ %s %s))", add.B.S, add.O.S, j), ar.path)
+				return pathRef(fmt.Sprintf("(at %s %s %s)", add.B.S, add.O.S, j), ar.path)
 			}
 			v.ctx.AssertRaw(fmt.Sprintf("(assert (forall ((j Int)) (! (=> (and (<= 0 j) (< j %s)) (= (select %s %s) (select %s %s))) :pattern ((select %s %s)))))",
 				n.S, a2.S, resElem(fmt.Sprintf("(+ %s j)", s.L.S)), a.S, addElem("j"), a2.S, resElem(fmt.Sprintf("(+ %s j)", s.L.S))))
